@@ -111,6 +111,13 @@ func main() {
 	}
 	controls := runControls()
 	kf := loadKnown(*knownPath)
+	if *tier == "thorough" {
+		max := 150
+		if s := os.Getenv("VERIF_SWEEP_MAX"); s != "" {
+			max, _ = strconv.Atoi(s)
+		}
+		r.Sweep = sensitivitySweep(w, spec, r, kf, seed, max)
+	}
 	expl := spec.Explanation
 	if !strings.Contains(expl, "static") {
 		expl = "static analysis (no orda code is executed): " + expl
